@@ -9,6 +9,6 @@
 // OB: ob_mcs_T2 tier=quick unwind=82 timeout=1500 solver=cadical bounds="MCSBarrier: T=2 x 2 phases, 50 steps" desc="phase separation, no deadlock"
 // OB: ob_mcs_T3 tier=thorough unwind=82 timeout=3000 solver=cadical bounds="MCSBarrier: T=3 x 2 phases, 80 steps" desc="phase separation, no deadlock"
 // OB: ob_dissem_T2 tier=quick unwind=82 timeout=900 solver=cadical bounds="DisseminationBarrier: T=2 x 3 phases (both parities), 20 steps" desc="phase separation, no deadlock"
-// OB: ob_dissem_T3 tier=thorough unwind=82 unwindfn=_reinit:110 timeout=3000 solver=cadical bounds="DisseminationBarrier: T=3 x 2 phases, 50 steps" desc="phase separation, no deadlock"
+// OB: ob_dissem_T3 tier=attic unwind=82 unwindfn=_reinit:110 timeout=3000 solver=cadical bounds="DisseminationBarrier: T=3 x 2 phases, 50 steps" desc="phase separation, no deadlock"
 // OB: ob_single_thread tier=quick unwind=82 timeout=300 bounds="T=1, 3 phases, Counting/MCS/Dissemination" desc="degenerate participant count: wait() returns"
 #include "C05_common.h"
